@@ -104,3 +104,8 @@ package shovel
 //@   loop#0 invariant [w-once] atMostOnce(W_rows)
 //@   loop#0 invariant [w-subset] (forall m uint64 :: W_cur[m] ==> D_cur[m]) && (forall m uint64 :: W_rows[m] <= D_rows[m]) && (forall m uint64 :: W_cur[m] ==> W_hash[m] == D_hash[m])
 //@   loop#0 invariant [w-rows-not-above-position] notAbove(W_cur, W_rows)
+
+// C18: goroutines started by load and insert touch captured variables only
+// under a lock.
+//@ goroutines (*Task).load props=C18
+//@ goroutines (*Task).insert props=C18
